@@ -8,7 +8,7 @@ for p in $(ls ${WOUT:-/tmp/w4out}); do
     [ -f $d/patch.diff ] && [ -f $d/demo.py ] && [ -f $d/notes.md ] || continue
     [ -f $d/.evaluated ] && continue
     # next free letter
-    for L in g h i j k l m n; do [ -d seeded/$p$L ] || [ -f ${WOUT:-/tmp/w4out}/.claimed-$p$L ] || break; done
+    for L in g h i j k l m n o p q; do [ -d seeded/$p$L ] || [ -f ${WOUT:-/tmp/w4out}/.claimed-$p$L ] || break; done
     touch ${WOUT:-/tmp/w4out}/.claimed-$p$L; touch $d/.evaluated
     jobs+=("$p$L $p $d")
   done
